@@ -73,6 +73,17 @@ func VerifH_prehash_mldsa_compute() {
 	verifrt.AssertEq(rec.VerifyMu[0], payload[5:], "the ordinary verifier checks the mu that ComputePrehash returns")
 	verifrt.AssertEq(rec.VerifyTr[0], tr, "under tr == H(pk, 64)")
 	verifrt.AssertEq(rec.VerifySig[0], sig, "on the signature without the output prefix")
+
+	// "hash the batch, sign later": a second prehash on the same primitive (other data) leaves
+	// the first one as it was - each call returns its own memory
+	first := append([]byte{}, payload...)
+	data2 := verifrt.Bytes("data2", 1+verifrt.Choice("dl2", 2))
+	payload2, err := ph.ComputePrehash(data2)
+	verifrt.Assert(err == nil && len(payload2) == 69, "second prehash")
+	verifrt.Assert(!verifrt.SameArray(payload, payload2), "each ComputePrehash returns fresh memory")
+	verifrt.AssertEq(payload, first, "an earlier prehash is unaffected by a later ComputePrehash on the same primitive")
+	verifrt.AssertEq(payload2[5:], shake256(64, tr, []byte{0, 0}, data2), "second mu")
+	verifrt.AssertEq(payload2[:5], first[:5], "same header")
 	verifrt.Reach("end")
 }
 
